@@ -14,6 +14,7 @@ mod nav;
 mod compare;
 mod c03;
 mod canon;
+mod serde_value;
 
 use common::Args;
 
@@ -37,6 +38,8 @@ fn main() {
         "c03" => (c03::generate, c03::eval),
         "c09" => (canon::generate_c09, canon::eval_c09),
         "c10" => (canon::generate_c10, canon::eval_c10),
+        "c17" => (serde_value::generate_c17, serde_value::eval_c17),
+        "c18" => (serde_value::generate_c18, serde_value::eval_c18),
         other => {
             eprintln!("unknown family {other}");
             std::process::exit(2);
